@@ -81,8 +81,35 @@ STRS = ["", "a", "blocked.sim", "10.9.0.9", "10.0.0.0/8", ".", "sim", "80", "x.y
 FUNCS = {"to_string": 1, "to_integer": 1, "split": 2, "strcat": 1, "cidr_match": 2}
 
 
+MAX_RANDOM_DEPTH = 7
+
+
+def nesting_depth(text):
+    """deepest nesting of parentheses, brackets and braces in a source text"""
+    d = m = 0
+    for ch in text:
+        if ch in "([{":
+            d += 1
+            m = max(m, d)
+        elif ch in ")]}":
+            d = max(0, d - 1)
+    return m
+
+
 def rand_expr(rng, t, d=0, odd=0.04):
-    """milu source text of (usually) type t in {'B','I','S','AS','AI'}"""
+    """milu source text of (usually) type t in {'B','I','S','AS','AI'}. The parser's time is exponential in the nesting depth (the
+    known deep-nesting finding, exercised on purpose by deep_expr): random expressions stay below the depth where that starts to
+    matter (a depth-9 expression with a syntax error inside took 72 s to be rejected), so that what they find is something else"""
+    if d == 0:
+        for _ in range(20):
+            e = _rand_expr(rng, t, 0, odd)
+            if nesting_depth(e) <= MAX_RANDOM_DEPTH:
+                return e
+        return {"B": "true", "I": "1"}.get(t, '"s"')
+    return _rand_expr(rng, t, d, odd)
+
+
+def _rand_expr(rng, t, d=0, odd=0.04):
     E = lambda tt: rand_expr(rng, tt, d + 1, odd)
     if rng.random() < odd:
         k = rng.randrange(5)
@@ -402,7 +429,19 @@ def gen(rng, tier, i):
         post_bodies.append(body)
         hs, proto = sc.client_handshake(lis["http"], "10.9.0.9", int(oaddr.rsplit(":", 1)[1]))
         sc.add_client("after-post%d" % k, lis["http"], [dict(o, on_fail="continue", timeout_ms=8000) for o in hs] + [op("recv_eof", timeout_ms=8000, on_fail="continue")], start_ms=350 + 100 * k)
-    sc.meta = {"cls": "m%d" % len(desc), "cfgkey": str(hash(json.dumps(cfg, sort_keys=True, default=str)) % 10 ** 9), "mutations": desc + deep_posts, "probes": probes, "posts": len(post_bodies), "keep_ops": True}
+    def strings(node):
+        if isinstance(node, str):
+            yield node
+        elif isinstance(node, dict):
+            for x in node.values():
+                yield from strings(x)
+        elif isinstance(node, list):
+            for x in node:
+                yield from strings(x)
+    # (the input class of the known deep-nesting finding is measured, whichever generator produced the text)
+    expr_depth = max([nesting_depth(x) for x in strings(cfg)] + [nesting_depth(x) for b in post_bodies for x in strings(b)] + [0])
+    sc.meta = {"cls": "m%d" % len(desc), "cfgkey": str(hash(json.dumps(cfg, sort_keys=True, default=str)) % 10 ** 9), "mutations": desc + deep_posts, "probes": probes, "posts": len(post_bodies), "keep_ops": True,
+               "expr_depth": expr_depth}
     # the access log is flushed when it is rotated: ask for it once the probes are through (API prefix /api or whatever survived)
     sc.api_call("rotate", "POST", "/api/logrotate", start_ms=1500, timeout_ms=8000)
     sc.actors[-1]["ops"] = [dict(o, on_fail="continue") for o in sc.actors[-1]["ops"]] + [op("sleep", ms=1500)]
@@ -445,7 +484,7 @@ def oracle(plan, out):
     V = []
     muts = "; ".join(meta["mutations"])[:300]
 
-    deep = any(m.startswith("deep-nesting") for m in meta["mutations"])
+    deep = any(m.startswith("deep-nesting") for m in meta["mutations"]) or meta.get("expr_depth", 0) > MAX_RANDOM_DEPTH
 
     def v(clause, sig, text):
         if deep and (sig in ("hang",) or sig.startswith("signal-stack-overflow") or sig.startswith("signal-sig")):
